@@ -62,7 +62,7 @@ def main():
         os.remove(os.path.join(wt, place, demo))
         rec["checks"] = {}
         for c in checks:
-            rc, o = sh("/verif/tools/mutrun.sh %s %s quick 2>&1 | tail -6" % (wt, c), timeout=3000)
+            rc, o = sh("/verif/tools/mutrun.sh %s %s quick 2>&1 | tail -40" % (wt, c), timeout=3000)
             viol = [l for l in o.split("\n") if l.startswith("VIOLATION")]
             rec["checks"][c] = {"detected": bool(viol), "tail": o[-800:]}
             print(pid, name, "check", c, "->", "DETECTED" if viol else "missed", "|", (viol or [""])[0])
